@@ -154,6 +154,10 @@ def poke(p, m):
             lines[0].children[0].children[0].value = "0.777"
             return True
     return False
+# a ladder of 13 nested tables (A -> d1 -> ... -> d12): deeper than any chain of the other files
+FILES.append([{"k": "Decay", "m": "A", "lines": [L("n1", ["d1", "x"], False, "model", "M1", []), L("n2", ["x", "y"], True, "model", "M2", [])]}]
+             + [{"k": "Decay", "m": f"d{i}", "lines": [L("n1", [f"d{i + 1}", "y"] if i < 12 else ["x", "y"], False, "model", "M1", [])]}
+                for i in range(1, 13)] + TAIL)
 
 
 def build(args):
@@ -176,8 +180,11 @@ def build(args):
     p0 = fresh()
     D0 = [direct(p0, m) for m in tabs]
     R0 = rest(fresh())
-    px = fresh()
-    X0 = derived(px, px.list_decay_mother_names())
+    # ... and the derived answers of every mother from an instance of their own: a query for one mother must not
+    # decide what the instance answers for another
+    X0 = {}
+    for m in fresh().list_decay_mother_names():
+        X0.update(derived(fresh(), [m]))
     # copy equals source in everything but the mother; a copy is usable as the source of a CDecay
     def strip(d, m):
         return json.loads(json.dumps(d).replace(json.dumps(m), '"@"')) if d != "missing" else d
